@@ -241,6 +241,15 @@ pub fn replay(path: &str) -> i32 {
         }
         return if e.issues.is_empty() { 0 } else { 1 };
     }
+    if check == "c18-long" {
+        let steps = get("steps").and_then(|v| v.parse::<usize>().ok()).unwrap_or(70_000);
+        let rr = get("round_robin").map_or(false, |v| v == "true");
+        let e = c18::eval_c18_long(&(steps, rr));
+        for i in &e.issues {
+            println!("ISSUE clause={} case={}\n   {}", i.clause, i.case, i.detail);
+        }
+        return if e.issues.is_empty() { 0 } else { 1 };
+    }
     if check == "c11" {
         println!("C11 replays are comparisons between builds: run ./check C11 quick");
         return 2;
